@@ -91,6 +91,26 @@ static size_t buf_filled=0;
 
 static rfbClientRec cl;
 
+/*
+ * Write to the HTTP client while substituting variables.  Once a write has
+ * failed (the client went away or does not read) nothing more is attempted,
+ * so that the wait for a stuck client is paid once per request and not once
+ * per substituted variable.
+ */
+static rfbBool httpWriteFailed = FALSE;
+
+static int
+httpWriteExact(const char *data, int len)
+{
+    if (httpWriteFailed)
+	return -1;
+    if (rfbWriteExact(&cl, data, len) < 0) {
+	httpWriteFailed = TRUE;
+	return -1;
+    }
+    return 1;
+}
+
 void
 rfbHttpInitSockets(rfbScreenInfoPtr rfbScreen)
 {
@@ -458,6 +478,8 @@ httpProcessInput(rfbScreenInfoPtr rfbScreen)
 
     /* Open the file */
 
+    httpWriteFailed = FALSE;
+
     if ((fd = fopen(fullFname, "r")) == 0) {
         rfbLogPerror("httpProcessInput: open");
         rfbWriteExact(&cl, NOT_FOUND_STR, strlen(NOT_FOUND_STR));
@@ -503,68 +525,68 @@ httpProcessInput(rfbScreenInfoPtr rfbScreen)
 	    char *dollar;
 	    buf[n] = 0; /* make sure it's null-terminated */
 
-	    while ((dollar = strchr(ptr, '$'))!=NULL) {
-		rfbWriteExact(&cl, ptr, (dollar - ptr));
+	    while (!httpWriteFailed && (dollar = strchr(ptr, '$'))!=NULL) {
+		httpWriteExact(ptr, (dollar - ptr));
 
 		ptr = dollar;
 
 		if (compareAndSkip(&ptr, "$WIDTH")) {
 
 		    sprintf(str, "%d", rfbScreen->width);
-		    rfbWriteExact(&cl, str, strlen(str));
+		    httpWriteExact(str, strlen(str));
 
 		} else if (compareAndSkip(&ptr, "$HEIGHT")) {
 
 		    sprintf(str, "%d", rfbScreen->height);
-		    rfbWriteExact(&cl, str, strlen(str));
+		    httpWriteExact(str, strlen(str));
 
 		} else if (compareAndSkip(&ptr, "$APPLETWIDTH")) {
 
 		    sprintf(str, "%d", rfbScreen->width);
-		    rfbWriteExact(&cl, str, strlen(str));
+		    httpWriteExact(str, strlen(str));
 
 		} else if (compareAndSkip(&ptr, "$APPLETHEIGHT")) {
 
 		    sprintf(str, "%d", rfbScreen->height + 32);
-		    rfbWriteExact(&cl, str, strlen(str));
+		    httpWriteExact(str, strlen(str));
 
 		} else if (compareAndSkip(&ptr, "$PORT")) {
 
 		    sprintf(str, "%d", rfbScreen->port);
-		    rfbWriteExact(&cl, str, strlen(str));
+		    httpWriteExact(str, strlen(str));
 
 		} else if (compareAndSkip(&ptr, "$DESKTOP")) {
 
-		    rfbWriteExact(&cl, rfbScreen->desktopName, strlen(rfbScreen->desktopName));
+		    httpWriteExact(rfbScreen->desktopName, strlen(rfbScreen->desktopName));
 
 		} else if (compareAndSkip(&ptr, "$DISPLAY")) {
 
 		    sprintf(str, "%s:%d", rfbScreen->thisHost, rfbScreen->port-5900);
-		    rfbWriteExact(&cl, str, strlen(str));
+		    httpWriteExact(str, strlen(str));
 
 		} else if (compareAndSkip(&ptr, "$USER")) {
 #ifndef WIN32
 		    if (user) {
-			rfbWriteExact(&cl, user,
+			httpWriteExact(user,
 				   strlen(user));
 		    } else
 #endif
-			rfbWriteExact(&cl, "?", 1);
+			httpWriteExact("?", 1);
 		} else if (compareAndSkip(&ptr, "$PARAMS")) {
 		    if (params[0] != '\0')
-			rfbWriteExact(&cl, params, strlen(params));
+			httpWriteExact(params, strlen(params));
 		} else {
 		    if (!compareAndSkip(&ptr, "$$"))
 			ptr++;
 
-		    if (rfbWriteExact(&cl, "$", 1) < 0) {
+		    if (httpWriteExact("$", 1) < 0) {
 			fclose(fd);
 			httpCloseSock(rfbScreen);
 			return;
 		    }
 		}
 	    }
-	    if (rfbWriteExact(&cl, ptr, (&buf[n] - ptr)) < 0)
+	    if (httpWriteExact(ptr, (&buf[n] - ptr)) < 0)
 		break;
 
 	} else {
